@@ -13,6 +13,7 @@
 Not claimed: byte-identity of the serializers themselves, stdout/stderr interleaving.
 """
 import os
+import re
 from engine import cg, flow, mirlib as M, facts
 
 LEVEL = "other"
@@ -153,6 +154,25 @@ def sink_in_loop(cr, f, site, ser):
     return None
 
 
+def moved_row(table, key, live):
+    """a reviewed row whose site moved with its statement into a closure / helper / sibling function of the same module: same source
+    kind (everything after the function part of the key), the row's own key no longer live, same module (first four path segments)"""
+    def split(k):
+        m_ = re.match(r"^(.*?):(loop|debug|adaptor|collect|clock|env|address|random|tty/env)(:.*)?$", k)
+        return (m_.group(1), m_.group(2) + (m_.group(3) or "")) if m_ else (k, "")
+
+    def module(fn):
+        return "::".join(fn.lstrip("<").split(" as ")[0].split("::{closure")[0].split("::")[:3])
+    fn, kind = split(key)
+    for tk, v in table.items():
+        tfn, tkind = split(tk)
+        if tk in live or tkind != kind or not kind:
+            continue
+        if tfn.split("::{closure")[0] == fn.split("::{closure")[0] or module(tfn) == module(fn):
+            return tk, v
+    return None
+
+
 def hash_order(ctx):
     rule = "R-C05-hash-order"
     table = load_table(TABLE)
@@ -172,6 +192,10 @@ def hash_order(ctx):
     for key in sorted(sites):
         s = sites[key]
         ent = table.get(key)
+        if ent is None:
+            mv = moved_row(table, key, set(sites))
+            if mv is not None:
+                ent = (mv[1][0], "moved from %s: %s" % (mv[0], mv[1][1] if len(mv[1]) > 1 else ""))
         cls = ent[0] if ent else None
         reason = ent[1] if ent and len(ent) > 1 else ""
         if s["sink"] and cls != "singleton":
@@ -461,6 +485,23 @@ def ambient(ctx):
     for key in sorted(found):
         f, t = found[key]
         ent = table.get(key)
+        if ent is None:
+            mv = moved_row(table, key, set(found))
+            if mv is not None:
+                ent = ("moved from %s: %s" % (mv[0], mv[1][0]),)
+        if ent is None:
+            # a private helper all of whose callers are reviewed for the same kind of source belongs to their unit
+            from engine import ai as AIM
+            fn_key, kind_ = key.rsplit(":", 2)[0], ":".join(key.rsplit(":", 2)[1:])
+            for cr in (ctx.lib, ctx.bin):
+                hf = cr.fns.get(fn_key)
+                if hf is None or not AIM.is_private_fn(hf):
+                    continue
+                callers = [k2 for k2, f2 in cr.fns.items() if any(t2["fn"].get("key") == fn_key for _, t2 in M.iter_calls(f2))]
+                rows = [table.get("%s:%s" % (c.split("::{closure")[0], kind_)) or table.get("%s:%s" % (c, kind_)) for c in callers]
+                if callers and all(r is not None for r in rows):
+                    ent = ("private helper of %s: %s" % (callers[0], rows[0][0]),)
+                    break
         ctx.ob(rule, key, ent is not None, ("reviewed: " + ent[0]) if ent else "new read of the clock / environment / addresses in reachable code", fn=f, line=t.get("ln", 0),
                sample={"source": key, "reason": ent[0] if ent else None} if "date_time::now" in key else None)
     for key in table:
